@@ -436,7 +436,7 @@ def main() -> int:
         # mechanical translation of small pure function bodies (harness/pytrans.py)
         sys.path.insert(0, os.path.dirname(os.path.abspath(__file__)))
         import pytrans
-        han = {m: importlib.import_module("han." + m) for m in ("fastframecheck", "hdlc", "dlde", "meter_connection")}
+        han = {m: importlib.import_module("han." + m) for m in ("fastframecheck", "hdlc", "dlde", "meter_connection", "autodecoder")}
         code, code_problems = pytrans.generate(han)
         problems += code_problems
     except Exception as ex:  # the tree does not even import: report, keep the old file
